@@ -165,7 +165,7 @@ def evaluate(case):
         if got != want:
             bad('transitions-set', occ, None, {'missing': [x for x in want if x not in got][:4], 'surplus': [x for x in got if x not in want][:4]})
         cls = {(i, j, d): nc for (i, j, d, nc) in rj[v]}
-        for (i, j, d, q) in tr:
+        for (i, j, d, q) in sorted(tr):     # sorted: the order of jumps inside a class depends on the hash seed
             ntr += 1
             new = occ.copy()
             if mode == 'v':
